@@ -218,6 +218,17 @@ class FnTr:
                 self.stop(s, "return types differ")
             return self.opt(r)
         if isinstance(s, ast.Assign):
+            # `a, b = e1, e2` with plain names that the right-hand sides do not mention is the same as two
+            # assignments in a row
+            if (len(s.targets) == 1 and isinstance(s.targets[0], ast.Tuple) and isinstance(s.value, ast.Tuple)
+                    and len(s.targets[0].elts) == len(s.value.elts)
+                    and all(isinstance(t, ast.Name) for t in s.targets[0].elts)):
+                names = {t.id for t in s.targets[0].elts}
+                used = {n.id for v in s.value.elts for n in ast.walk(v) if isinstance(n, ast.Name)}
+                if len(names) == len(s.targets[0].elts) and not (names & used):
+                    seq = [ast.copy_location(ast.Assign(targets=[t], value=v), s)
+                           for t, v in zip(s.targets[0].elts, s.value.elts)]
+                    return self.block(seq + rest)
             if len(s.targets) != 1 or not isinstance(s.targets[0], ast.Name):
                 self.stop(s, "assignment target")
             r = self.expr(s.value)
